@@ -1,5 +1,5 @@
 \* single signing step: every type x key x digest x mode
-CONSTANTS Types = {"jar", "apk", "pe-dll", "pe-exe", "msi", "cab", "cat", "ps1", "ps1xml", "mof", "manifest", "vsix", "appx", "xap", "macho", "dmg", "pkg", "deb", "rpm", "pgp-detached", "pgp-clearsign"}
+CONSTANTS Types = {"jar", "apk", "pe-dll", "pe-exe", "msi", "cab", "cat", "ps1", "ps1xml", "mof", "manifest", "vsix", "appx", "xap", "macho", "dmg", "pkg", "deb", "rpm", "pgp-detached", "pgp-clearsign", "pgp-inline"}
   KeysX509 = {"rsa2048", "rsa3072", "p256", "p384", "p521"}  KeysPgp = {"rsa2048"}
   Digests = {"md5", "sha1", "sha224", "sha256", "sha384", "sha512"}  Modes = {"standalone", "server"}  MaxRounds = 1  ExportLen = 1  Variant = "code"
 SPECIFICATION Spec
